@@ -287,6 +287,38 @@ def intrinsic_job(job, acc: Acc):
         acc.sample({"intrinsic": name, "kind": kind, "document": text})
 
 
+# ---------------------------------------------------------------- fragments
+# Documents of one or two lines made of statement fragments (complete, partial and broken; the alphabet of C03), so that
+# the cursor also stands outside any program unit, in files without a single scope: every column, every method.
+FRAGMENT_EXTRA = ["integer, p", "integer, dimension(3), p", "real, in", "type(t), al", "use m, on", "call s(1, 'a", "x = 1.0e0 + .true. // 'str'",
+                  "print *, 12, \"s\"", "a%b%", "call a%b(", "procedure(", "1 + 2", ".true.", "'literal only'"]
+
+
+def fragment_jobs():
+    from . import c03
+
+    frags = [f for f in c03.FRAGMENTS if not f.startswith("#")] + FRAGMENT_EXTRA
+    for k, f in enumerate(frags):
+        for shape in ("alone", "after_blank", "before_end", "after_decl"):
+            yield (k, f, shape)
+
+
+def fragment_job(job, acc: Acc):
+    k, frag, shape = job
+    lines = {"alone": [frag], "after_blank": ["", frag], "before_end": [frag, "end"], "after_decl": ["integer :: a", frag]}[shape]
+    text = "\n".join(lines) + "\n"
+    s = _server()
+    path = os.path.join(_S["root"], "zz_fragment_probe.f90")
+    s.open(path)
+    s.change(path, [{"text": text}])
+    ln = lines.index(frag)
+    for col in range(0, len(frag) + 2):
+        request_all(s, "fragments", path, ln, col, acc, f"fragment[{k}] {shape}", extra_tags={"shape": shape},
+                    case_extra={"fragment": frag, "shape": shape, "text": text})
+    if len(acc.samples) < 1:
+        acc.sample({"fragment": frag, "shape": shape, "document": text})
+
+
 # ------------------------------------------------------- diagnostics on continued statements
 # Diagnostics that are anchored on a word (undeclared dummy, declared twice, masking, unknown module, unknown type, INTENT
 # without argument) take their line and columns from where the word is found: the word is put on the first line or on
@@ -518,6 +550,8 @@ def main(ctx):
     names = intrinsic_names()
     iacc = core.pmap(intrinsic_job, names, chunk=4, budget_s=600, label="C09/intrinsics")
     ctx.add_family("intrinsics", iacc, names=len(names))
+    facc = core.pmap(fragment_job, list(fragment_jobs()), chunk=4, budget_s=300, label="C09/fragments")
+    ctx.add_family("fragments", facc)
     dacc = core.pmap(diag_job, list(diag_cases()), chunk=2, budget_s=120, label="C09/diag")
     ctx.add_family("diag_continuation", dacc, templates=len(DIAG_TEMPLATES))
     depth = 3 if q else 4
@@ -545,6 +579,12 @@ def replay(rec):
     elif fam == "mutants":
         m = re.match(r"(.*) \[(\w+) line (\d+)\]", c["file"])
         mutant_job((m.group(1), m.group(2), int(m.group(3))), acc)
+    elif fam == "fragments":
+        from . import c03
+
+        frags = [f for f in c03.FRAGMENTS if not f.startswith("#")] + FRAGMENT_EXTRA
+        fragment_job((frags.index(c["fragment"]), c["fragment"], c["shape"]), acc)
+        return [v.to_json("C09") for v in acc.violations if (v.case.get("method"), v.case.get("character")) == (c.get("method"), c.get("character"))] or None
     elif fam == "diag_continuation":
         diag_job(tuple(c["case"]), acc)
         return [v.to_json("C09") for v in acc.violations] or None
